@@ -104,3 +104,12 @@ Qed.
 
 Lemma peekz_nil i : peekz [] i = None.
 Proof. apply peekz_none_iff. unfold len. cbn [length Z.of_nat]. lia. Qed.
+
+Lemma peekz_getz_b l i : 0 <= i < len l -> peekz l i = Some (getz l i).
+Proof. intros H. destruct (peekz_in_range l i H) as [c Hc]. unfold getz. rewrite Hc. reflexivity. Qed.
+
+Lemma zrange_from_bounds lo n x : In x (zrange_from lo n) -> lo <= x < lo + Z.of_nat n.
+Proof.
+  revert lo. induction n as [|n IH]; intros lo H; cbn [zrange_from] in H; [contradiction|].
+  destruct H as [<-|H]; [lia|]. apply IH in H. lia.
+Qed.
